@@ -331,7 +331,7 @@ def solo_worker(path):
 
 def solo_in_subprocess(case):
     import json, os, subprocess, tempfile
-    fd, path = tempfile.mkstemp(prefix="nvf_c19_", suffix=".json")
+    fd, path = tempfile.mkstemp(prefix="nvf_c19_", suffix=".json", dir=os.environ.get("NVF_TMP") or None)
     with os.fdopen(fd, "w") as fh:
         json.dump(common.jsonable(case), fh)
     env = dict(os.environ, PYTHONPATH=f"{common.VERIF}:{common.REPO}", PYTHONDONTWRITEBYTECODE="1")
